@@ -456,6 +456,16 @@ def make_spec_step(fam, attr, op, nmax):
         else:
             ok = len(got) == len(m) and all(g[0] == w[0] and (g[1] is w[1] or g[1] == w[1]) for g, w in zip(got, m))
         check(ok, "keywords build or update the element; a bare key is promoted to a keyed element", f"{tag}/content", lambda: f"{got!r} vs {m!r}")
+        if attr in ("items", "bag"):
+            cont = getattr(r, attr)
+            for kk, vv in m:  # the element is also what a lookup BY KEY returns (a later edit by key starts from it)
+                e_ = cont[kk]
+                check(e_.k == kk and (e_.v is vv or e_.v == vv), "the edited element is the one reachable under its key", f"{tag}/key-lookup-stale", lambda: f"[{kk!r}] -> ({e_.k!r}, {e_.v!r}) want v={vv!r}")
+            # and a second edit by key builds on the first
+            if op == "update_key_kw" and idx is not None:
+                r2 = getattr(r, f"update_{sing}")(key, **kw) if False else getattr(r, f"transform_{sing}")(key, v=lambda t: t + 1, **kw)
+                got2 = [x.v for x in getattr(r2, attr) if x.k == key]
+                check(len(got2) == 1 and got2[0] == v + 1, "a second edit by key builds on the first", f"{tag}/second-edit-lost-first", lambda: f"{got2!r} vs {v + 1!r}")
         return "ok"
 
     step.__name__ = f"spec_{attr}_{op}"
